@@ -42,7 +42,7 @@ StrictSlashes(p, branch) ==
     IF p.els = <<>> THEN p.trail = 1 /\ branch
     ELSE SingleSlashes(p) /\ p.trail = (IF branch THEN 1 ELSE 0)
 
-VARIABLES cfg,    \* [appMode, routeMode, inherit, kind, methods ("any"|"GET")]
+VARIABLES cfg,    \* [appMode, routeMode, innerMode, embed, inherit, kind, methods ("any"|"GET")]
           req,    \* [path, query, method]
           step,   \* 0 not sent, 1 first answered, 2 redirect followed
           ans1, ans2   \* answers: [k: "exec"|"redirect"|"404"|"405"|"-", path (Location path), query, params]
@@ -50,7 +50,11 @@ VARIABLES cfg,    \* [appMode, routeMode, inherit, kind, methods ("any"|"GET")]
 vars == <<cfg, req, step, ans1, ans2>>
 NoAns == [k |-> "-", path |-> [els |-> <<>>, trail |-> 1], query |-> "none", params |-> <<>>]
 
-EffMode(c) == IF c.inherit THEN c.appMode ELSE c.routeMode
+\* the slash mode a bound route ends up with.  Not embedded: the application's unless the route was added with
+\* inherit_slashes=False.  Embedded (the route lives in an inner application with its own mode, which it inherited
+\* when first bound there): the serving application's unless the embedding opted out, then the INNER application's.
+EffMode(c) == IF c.embed THEN (IF c.inherit THEN c.appMode ELSE c.innerMode)
+              ELSE (IF c.inherit THEN c.appMode ELSE c.routeMode)
 
 \* what the dispatcher sees: the request layer (werkzeug Request.path = "/" + PATH_INFO.lstrip("/"))
 \* collapses the LEADING slash run before clastic looks at the path
@@ -75,7 +79,7 @@ Dispatch(c, p0, q, m) ==
             ELSE [k |-> "exec", path |-> p, query |-> q, params |-> segs]
 
 \* configuration and request are chosen by actions (so that simulation can sample large alphabets)
-NoCfg == [appMode |-> "-", routeMode |-> "-", inherit |-> TRUE, kind |-> "-", methods |-> "-"]
+NoCfg == [appMode |-> "-", routeMode |-> "-", innerMode |-> "-", embed |-> FALSE, inherit |-> TRUE, kind |-> "-", methods |-> "-"]
 Init == /\ cfg = NoCfg
         /\ req = [path |-> [els |-> <<>>, trail |-> 0], query |-> "none", method |-> "-"]
         /\ step = 0 /\ ans1 = NoAns /\ ans2 = NoAns
@@ -102,7 +106,7 @@ Follow == /\ step = 1 /\ ans1.k = "redirect"
           /\ step' = 2
           /\ UNCHANGED <<cfg, req, ans1>>
 
-Cfgs == [appMode : Modes, routeMode : Modes, inherit : BOOLEAN, kind : RouteKinds, methods : {"any", "GET"}]
+Cfgs == [appMode : Modes, routeMode : Modes, innerMode : Modes, embed : BOOLEAN, inherit : BOOLEAN, kind : RouteKinds, methods : {"any", "GET"}]
 Next == \/ \E c \in Cfgs : ChooseCfg(c)
         \/ \E run \in 1..2, seg \in SegIds : AddSeg(run, seg)
         \/ \E t \in 0..2, q \in Queries, m \in Methods : ChooseReq(t, q, m)
